@@ -205,7 +205,7 @@ def tree_jobs(tier, which):
             jobs.append(Job("tree-map-cfg%d-U%d" % (cfg, 13 if X else 11), H, ["map", cfg, 13 if X else 11, 1], wraps=VA_WRAPS, weight=30 if X else 5))
             if X and cfg in (0, 2):
                 jobs.append(Job("tree-map-cfg%d-U14" % cfg, H, ["map", cfg, 14, 1], wraps=VA_WRAPS, weight=100))
-            jobs.append(Job("tree-map-cfg%d-U%d-values" % (cfg, 7 if X else 6), H, ["map", cfg, 7 if X else 6, 3], wraps=VA_WRAPS, weight=20 if X else 5))
+            jobs.append(Job("tree-map-cfg%d-U%d-values" % (cfg, 7 if X else 5), H, ["map", cfg, 7 if X else 5, 4], wraps=VA_WRAPS, weight=20 if X else 5))
     if which in ("map", "all"):
         jobs.append(bigfmt_job("qtreetbl"))
     if which in ("walk", "all"):
@@ -276,14 +276,15 @@ def hashtbl_jobs(tier):
     jobs = []
     for rng in ([1, 2, 3, 5, 0] if X else [1, 2, 3, 0]):
         jobs.append(Job("hashtbl-r%d" % rng, H, [rng, 6 if X else 5, 2], wraps=VA_WRAPS, weight=10))
-    jobs.append(Job("hashtbl-r2-putint", H, [2, 4, 3], wraps=VA_WRAPS, weight=10))
+    jobs.append(Job("hashtbl-r2-twin", H, [2, 5 if X else 4, 3], wraps=VA_WRAPS, weight=10))
+    jobs.append(Job("hashtbl-r2-putint", H, [2, 4, 4], wraps=VA_WRAPS, weight=10))
     jobs.append(bigfmt_job("qhashtbl"))
     return jobs
 
 
 @prop("C05", "model_checking",
       "BFS closure of every qhashtbl state reachable by put / putstr / putint / remove (present and absent) / clear over 5 "
-      "string keys incl. the empty key (6 in thorough) and 2-3 value versions (bytes with embedded NUL, string, integer), for "
+      "string keys incl. the empty key (6 in thorough) and 3-4 value versions (two byte values of equal length that agree up to an embedded NUL, string, integer), for "
       "ranges 1, 2, 3 (5) and the default 1000; canonical state = ordered chain of every slot. After every transition: get "
       "(both newmem), getstr, getint, size, errno, and complete getnext walks in both newmem modes against a map model",
       ["map model in engines/seqmc/hashtbl.c; slot prediction by an independent MurmurHash3"],
@@ -327,7 +328,7 @@ def list_jobs(tier):
     jobs = [Job("list-L%d" % (7 if X else 5), ["seqmc/list.c"], [7 if X else 5], wraps=VA_WRAPS, weight=30)]
     for kind in ("queue", "stack", "grow"):
         jobs.append(Job("%s-L%d" % (kind, 7 if X else 5), ["seqmc/qsg.c"], [kind, 7 if X else 5], wraps=VA_WRAPS, weight=10))
-    jobs.append(bigfmt_job("qgrow"))
+    jobs.append(bigfmt_job("qgrow")); jobs.append(bigfmt_job("qqueue")); jobs.append(bigfmt_job("qstack"))
     return jobs
 
 
